@@ -177,6 +177,64 @@ def run_b(cfg, hist):
     return vio, s.fp(extra=(model, amb)), s
 
 
+def run_b_dt(cfg, hist):
+    """The count is kept per REQUEST: a DT poll whose optional meter request goes unanswered returns its running data
+    (the call succeeds) - the unanswered request still is a failed request since the last successful one."""
+    s = Session(cfg, family='DT')
+    R = cfg['R']
+    model = 0
+    vio = []
+    for name in hist:
+        meter = getattr(s.inv, '_has_meter', True)
+        if name == 'poll':
+            s.peer.forced = ['valid', 'valid']
+            obs = s.call(s.inv.read_runtime_data)
+            model = 0 if obs.result[0] == 'ok' else model
+        elif name == 'poll:meter-silent':
+            s.peer.forced = ['valid'] + ['drop'] * (R + 1)
+            obs = s.call(s.inv.read_runtime_data)
+            if obs.result[0] == 'ok':
+                model = 1 if meter else 0
+        elif name == 'read-ok':
+            s.peer.forced = ['valid']
+            obs = s.call(op_call(s.inv, 'read_sensor'))
+            model = 0 if obs.result[0] == 'ok' else model
+        else:
+            s.peer.forced = ['drop'] * (R + 1)
+            obs = s.call(op_call(s.inv, 'read_sensor'))
+            r = obs.result
+            if r[0] == 'exc' and r[1] == 'RequestFailedException':
+                model += 1
+                if r[4] != model:
+                    vio.append(('consecutive-failures-count', f'{r[4]} reported, {model} failed requests since the last successful request '
+                                                              f'(history {hist})'))
+        s.peer.forced = []
+        s.drain()
+        for clause, cause in judge(obs):
+            vio.append((clause, cause))
+    return vio
+
+
+def job_b_dt(j):
+    cfg, depth = j
+    letters = ('poll', 'poll:meter-silent', 'read-ok', 'read-fail')
+    out = {}
+    n = 0
+    for d in range(1, depth + 1):
+        for hist in itertools.product(letters, repeat=d):
+            n += 1
+            for clause, cause in run_b_dt(cfg, list(hist)):
+                key = f"{clause}/{cfg['transport']}/ka={int(cfg['ka'])}/DT-requests-inside-a-poll"
+                out.setdefault(key, []).append(dict(key=key, clause=clause, replay=dict(part='b-dt', cfg=cfg, history=list(hist)),
+                                                    detail=dict(cause=cause, history=list(hist))))
+    res = []
+    for key, lst in out.items():
+        lst.sort(key=lambda v: len(v['replay']['history']))
+        lst[0]['n'] = len(lst)
+        res.append(lst[0])
+    return n, res
+
+
 def job_b(j):
     cfg, depth = j
     names = list(H_LETTERS)
@@ -447,6 +505,10 @@ def run(tier, seed, rep):
         total.merge(st)
         fixes += bool(fix)
         nb += st.executions
+    for n, res in pmap(job_b_dt, [(dict(transport=tr, ka=ka, T=1, R=R), 4 if tier == 'thorough' else 3)
+                                  for tr in ('udp', 'tcp') for ka in (False, True) for R in (0, 1)]):
+        nb += n
+        rep.add_many(res)
     # (d)
     nd = 0
     for n, res in pmap(job_d, [(dict(transport=tr, ka=ka, T=1, R=R),) for tr in ('udp', 'tcp') for ka in (False, True)
@@ -496,6 +558,8 @@ def replay(r):
     if r['part'] == 'd':
         v = run_d(r['cfg'], tuple(r['history']), tuple(r['outcomes']), tuple(r['offsets']))
         return dict(violations=v)
+    if r['part'] == 'b-dt':
+        return dict(history=r['history'], violations=run_b_dt(r['cfg'], r['history']))
     if r['part'] == 'b':
         v, _, _ = run_b(r['cfg'], r['history'])
         return dict(history=r['history'], violations=v)
